@@ -51,7 +51,7 @@ package loader
 
 // listeners are telemetry callbacks supplied by the client: `pure` states the assumption that they do not write loader state
 //@ func (*Options).ProcessEvent
-//@   except nilfunc#1 : undischarged on the reference tree (engine limit or missing callee contract), not claimed
+//@   except nilfunc@3f8c19#1 : undischarged on the reference tree (engine limit or missing callee contract), not claimed
 //@   nopanic[C01]
 //@? pure
 
@@ -160,12 +160,12 @@ package loader
 // ---------------------------------------------------------------- mapstructure.go
 
 //@ func decoderHook
-//@   except nilderef#1, nilderef#2, nilderef#3, typeassert#1 : undischarged on the reference tree (engine limit or missing callee contract), not claimed
+//@   except nilderef@9b8e70#1, nilderef@4c74d3#1, nilderef@8577df#1, typeassert@5ebbff#1 : undischarged on the reference tree (engine limit or missing callee contract), not claimed
 //@   nopanic[C01,C08]
 
 //@ func cast
-//@   except nilderef#2 : undischarged on the reference tree (engine limit or missing callee contract), not claimed
-//@   except nilderef#1 : undischarged on the reference tree (engine limit or missing callee contract), not claimed
+//@   except nilderef@0b5a0d#1 : undischarged on the reference tree (engine limit or missing callee contract), not claimed
+//@   except nilderef@d14462#1 : undischarged on the reference tree (engine limit or missing callee contract), not claimed
 //@   nopanic[C01,C08]
 
 // ---------------------------------------------------------------- paths.go
@@ -197,7 +197,7 @@ package loader
 //@   requires value != nil
 
 //@ func (*ResetProcessor).resolveReset
-//@   except index#3, nilderef#17, nilmap#1, precondition#1, precondition#3, precondition#6 : undischarged on the reference tree (engine limit or missing callee contract), not claimed
+//@   except index@e1f085#1, nilderef@9d1ace#1, nilmap@477d0d#1, precondition@0ae563#1, precondition@96917c#1, precondition@acc2fc#1 : undischarged on the reference tree (engine limit or missing callee contract), not claimed
 //@   nopanic[C01,C04]
 //@   requires node != nil
 //@   requires p.visitedNodes != nil
@@ -232,7 +232,7 @@ package loader
 // C01: a `services` section that is not a mapping is an error, never a crash.
 // C05: every service is replaced by its resolved definition.
 //@ func ApplyExtends
-//@   except nilbox#3 : undischarged on the reference tree (engine limit or missing callee contract), not claimed
+//@   except nilbox@741095#1 : undischarged on the reference tree (engine limit or missing callee contract), not claimed
 //@   nopanic[C01,C05]
 //@   requires ctx != nil && dict != nil && opts != nil && tracker != nil
 //@   ensures[C01] old(has(dict, "services")) && !old(isMap(dict["services"])) ==> err != nil
@@ -243,8 +243,8 @@ package loader
 //  - a base named in the same file that does not exist is an error;
 //  - an error yields no result.
 //@ func applyServiceExtends
-//@   except nilbox#11 : undischarged on the reference tree (engine limit or missing callee contract), not claimed
-//@   except nilbox#12, nilderef#14, typeassert#1 : undischarged on the reference tree (engine limit or missing callee contract), not claimed
+//@   except nilbox@c604c4#1 : undischarged on the reference tree (engine limit or missing callee contract), not claimed
+//@   except nilbox@741095#1, nilderef@56f003#1, typeassert@b4a20f#1 : undischarged on the reference tree (engine limit or missing callee contract), not claimed
 //@   nopanic[C01,C05]
 //@   requires ctx != nil && services != nil && opts != nil && tracker != nil
 // C02/C05 ownership: ExtendService merges INTO its first argument, so it is only ever given a map made
@@ -266,7 +266,7 @@ package loader
 // C01/C05: a missing or unreadable base file, a base file without a `services` mapping or without the
 // referenced service is an error; on success the returned services mapping contains the referenced service.
 //@ func getExtendsBaseFromFile
-//@   except nilderef#4, nilderef#5, nilderef#6, precondition#3, typeassert#1 : undischarged on the reference tree (engine limit or missing callee contract), not claimed
+//@   except nilderef@b45704#1, nilderef@34b22b#1, nilderef@c35434#1, precondition@819717#2, typeassert@c19114#1 : undischarged on the reference tree (engine limit or missing callee contract), not claimed
 //@   nopanic[C01,C05]
 //@? ensures[C01,C05] err == nil ==> has(result.0, ref) && result.1 != nil // engine: the check is made, but paths.ResolveRelativePaths (no contract) then havocs every heap
 //@   requires opts != nil && ct != nil
@@ -285,7 +285,7 @@ package loader
 //@     invariant -1 <= rangeindex && rangeindex < len(configs)
 
 //@ func ApplyInclude
-//@   except index#12, nilderef#41, nilderef#45, nilderef#50, nilderef#51, nilderef#56, nilderef#62, nilfunc#1, precondition#10, precondition#11, precondition#12, precondition#13, precondition#14, precondition#4, precondition#5, precondition#6, precondition#7, precondition#8, precondition#9 : undischarged on the reference tree (engine limit or missing callee contract), not claimed
+//@   except index@5400a2#1, nilderef@c852c2#3, nilderef@904160#3, nilderef@cc6ae6#1, nilderef@1a32df#1, nilderef@343e16#2, nilderef@5c45b3#1, nilfunc@b84dc9#1, precondition@b4e433#8, precondition@b4e433#9, precondition@b4e433#10, precondition@b4e433#11, precondition@b4e433#12, precondition@b4e433#2, precondition@b4e433#3, precondition@b4e433#4, precondition@b4e433#5, precondition@b4e433#6, precondition@b4e433#7 : undischarged on the reference tree (engine limit or missing callee contract), not claimed
 //@   nopanic[C01,C06]
 //@   requires model != nil && options != nil
 //@   ensures[C06] err == nil ==> !has(model, "include")
@@ -347,7 +347,7 @@ package loader
 //@   ensures[C01] (err != nil) ==> result.0 == nil && result.1 == nil
 
 //@ func LoadConfigFiles
-//@   except index#4, index#5, nilderef#10, nilderef#9, nilfunc#1 : undischarged on the reference tree (engine limit or missing callee contract), not claimed
+//@   except index@a5e83a#1, index@a5e83a#2, nilderef@e198c1#1, nilderef@cc6ae6#1, nilfunc@ded5c7#1 : undischarged on the reference tree (engine limit or missing callee contract), not claimed
 //@   nopanic[C01]
 //@   ensures[C01] len(configFiles) < 1 ==> err != nil
 //@   ensures[C01] err == nil ==> result.0 != nil
@@ -357,31 +357,31 @@ package loader
 //@   ensures[C01] (err == nil) != (result.0 == nil)
 
 //@ func LoadWithContext
-//@   except precondition#2, precondition#3 : undischarged on the reference tree (engine limit or missing callee contract), not claimed
+//@   except precondition@c11f99#1, precondition@b8a221#1 : undischarged on the reference tree (engine limit or missing callee contract), not claimed
 //@   nopanic[C01]
 //@   ensures[C01] (err == nil) != (result.0 == nil)
 
 //@ func LoadModelWithContext
-//@   except precondition#2 : undischarged on the reference tree (engine limit or missing callee contract), not claimed
+//@   except precondition@406bb3#1 : undischarged on the reference tree (engine limit or missing callee contract), not claimed
 //@   nopanic[C01]
 //@   ensures[C01] (err == nil) != (result.0 == nil)
 
 //@ func loadModelWithContext
-//@   except precondition#3 : undischarged on the reference tree (engine limit or missing callee contract), not claimed
+//@   except precondition@f98656#1 : undischarged on the reference tree (engine limit or missing callee contract), not claimed
 //@   nopanic[C01,C17]
 //@   requires configDetails != nil && opts != nil && opts.Interpolate != nil
 //@   ensures[C01] (err == nil) != (result.0 == nil)
 //@   ensures[C01] old(len(configDetails.ConfigFiles)) < 1 ==> err != nil
 
 //@ func toOptions
-//@   except nilfunc#1 : undischarged on the reference tree (engine limit or missing callee contract), not claimed
+//@   except nilfunc@ded5c7#1 : undischarged on the reference tree (engine limit or missing callee contract), not claimed
 //@   nopanic[C01]
 //@   requires configDetails != nil
 //@?   ensures[C01] result != nil && result.Interpolate != nil   // undischarged on the reference tree: not claimed
 
 //@ func loadYamlModel
-//@   except precondition#1, precondition#2, precondition#3, precondition#5 : undischarged on the reference tree (engine limit or missing callee contract), not claimed
-//@   except precondition#4, typeassert#1 : undischarged on the reference tree (engine limit or missing callee contract), not claimed
+//@   except precondition@0afb8b#1, precondition@9a3bd2#1, precondition@9ab0bf#1, precondition@21c0e9#1 : undischarged on the reference tree (engine limit or missing callee contract), not claimed
+//@   except precondition@9ab0bf#2, typeassert@c19114#1 : undischarged on the reference tree (engine limit or missing callee contract), not claimed
 //@   nopanic[C01,C04]
 //@   requires opts != nil && ct != nil
 //@?   ensures[C01] (err == nil) != (result.0 == nil)   // undischarged on the reference tree: not claimed
@@ -390,21 +390,21 @@ package loader
 
 // C01: an unreadable file is an error (returned unchanged), never skipped
 //@ func loadYamlFile
-//@   except closure-precondition#2, precondition#2, precondition#3, precondition#4 : undischarged on the reference tree (engine limit or missing callee contract), not claimed
+//@   except closure-precondition#2, precondition@5c7e57#2, precondition@6dcccf#1, precondition@6dcccf#2 : undischarged on the reference tree (engine limit or missing callee contract), not claimed
 //@   nopanic[C01,C04]
 //@   requires opts != nil && ct != nil && dict != nil
 //@?   ensures[C01] (err == nil) != (result.0 == nil)   // undischarged on the reference tree: not claimed
 //@   ensures[C01] err != nil ==> result.1 == nil
 
 //@ func loadYamlFile$1
-//@   except nilderef#14, nilderef#30, nilderef#42, nilderef#49, nilderef#9, precondition#1, precondition#2, precondition#3, precondition#4, precondition#5, precondition#6, precondition#8 : undischarged on the reference tree (engine limit or missing callee contract), not claimed
+//@   except nilderef@255a2d#2, nilderef@b5424e#2, nilderef@c8c305#3, nilderef@7e4915#2, nilderef@2a1f58#2, precondition@7872f0#1, precondition@e5ce2c#1, precondition@70c188#1, precondition@c105d8#1, precondition@fb55b9#1, precondition@c8c305#1, precondition@fb55b9#2 : undischarged on the reference tree (engine limit or missing callee contract), not claimed
 //@   nopanic[C01,C04]
 //@   requires opts != nil && ct != nil && dict != nil
 //@   requires ctx != nil // context.WithValue is not modelled by the engine: this one is not established at the creation site
 
 // C01: an include cycle is an error; C17: a successful load has a non-empty project name
 //@ func load
-//@   except precondition#3, precondition#4, precondition#5 : undischarged on the reference tree (engine limit or missing callee contract), not claimed
+//@   except precondition@4393aa#2, precondition@4393aa#3, precondition@4393aa#4 : undischarged on the reference tree (engine limit or missing callee contract), not claimed
 //@   nopanic[C01,C17]
 //@   requires opts != nil && len(configDetails.ConfigFiles) >= 1
 //@   ensures[C01] (err == nil) != (result.0 == nil)
@@ -424,7 +424,7 @@ package loader
 // otherwise the candidate from the compose files replaces the guessed name iff it is non-empty AFTER normalisation;
 // on every return path COMPOSE_PROJECT_NAME in the project environment is the project name.
 //@ func projectName
-//@   except nilderef#11, precondition#1, typeassert#1 : undischarged on the reference tree (engine limit or missing callee contract), not claimed
+//@   except nilderef@34e012#3, precondition@e2736d#1, typeassert@d6b427#1 : undischarged on the reference tree (engine limit or missing callee contract), not claimed
 //@   nopanic[C01,C17]
 //@   requires details != nil && opts != nil
 //@   requires !opts.SkipInterpolation ==> opts.Interpolate != nil
@@ -455,7 +455,7 @@ package loader
 //@   nopanic[C01,C17]
 
 //@ func processExtensions
-//@   except nilbox#6, nilbox#7 : undischarged on the reference tree (engine limit or missing callee contract), not claimed
+//@   except nilbox@637b29#1, nilbox@f01c79#1 : undischarged on the reference tree (engine limit or missing callee contract), not claimed
 //@   nopanic[C01]
 //@   requires dict != nil
 //@   ensures[C01] err == nil ==> result.0 == dict
@@ -468,7 +468,7 @@ package loader
 //@   nopanic[C01]
 
 //@ func secretConfigDecoderHook
-//@   except nilderef#1 : undischarged on the reference tree (engine limit or missing callee contract), not claimed
+//@   except nilderef@e838f4#1 : undischarged on the reference tree (engine limit or missing callee contract), not claimed
 //@   nopanic[C01]
 
 // C01: the string-key invariant of the tree: on success no map[any]any remains at the top, a non-string key is an error
@@ -481,5 +481,5 @@ package loader
 //@   ensures[C01] err != nil ==> result.0 == nil
 
 //@ func convertVolumePath
-//@   except slice#1 : undischarged on the reference tree (engine limit or missing callee contract), not claimed
+//@   except slice@0ea55d#1 : undischarged on the reference tree (engine limit or missing callee contract), not claimed
 //@   nopanic[C01]
